@@ -636,6 +636,9 @@ class Analysis:
             p = ptr()
             if p:
                 return ("V", "iter", "slice", p, fn.endswith("iter_mut"))
+        if fn == "core::iter::Iterator::by_ref" and args and args[0][0] == "P" and res == fn:
+            cs.no_effects = True
+            return args[0]  # the provided body of by_ref is `self`: the same &mut to the iterator
         if fn.startswith("core::iter::Iterator::") and fn.split("::")[-1] in ITER_ADAPTORS:
             return ("V", "iter", fn.split("::")[-1]) + tuple(args)
         if fn == "core::iter::IntoIterator::into_iter":
@@ -648,6 +651,11 @@ class Analysis:
                     return ("V", "iter", "slice", ("P", x[1], x[2], te.length(adt_args(st_)[1])), cs.key.startswith("<&mut"))
             if cs.key == "<GenericArray<$0,$1> as core::iter::IntoIterator>::into_iter":
                 return ("V", "iter", "ga", x)
+            # `for x in slice_ref`: IntoIterator for &[T] / &mut [T] is slice.iter() / slice.iter_mut()
+            t0 = targs[0] if targs else None
+            if x[0] == "P" and x[3] is not None and t0 is not None and t0.get("k") == "ref" and t0["t"].get("k") == "slice":
+                cs.no_effects = True
+                return ("V", "iter", "slice", x, bool(t0.get("mut")))
             return ("V", "iter", "into_iter", x)
         if fn in ("core::iter::Iterator::next", "core::iter::DoubleEndedIterator::next_back"):
             p = ptr()
